@@ -204,6 +204,8 @@ def check(run, M, tier):
 
     # ---------------------------------------------------------------- T5
     check_power_method(run, M, "T5")
+    run.rule("T8", "NewtonsMethod._update: lamda2 = -Re<p, grad f(x)> with p = -H^-1 grad f(x); any lamda2 < 0 raises; residual = sqrt(lamda2) is what _done compares with tol")
+    check_newton(run, M, "T8")
 
     # ---------------------------------------------------------------- T7
     _t7(run, M, eff, algs)
@@ -211,6 +213,35 @@ def check(run, M, tier):
     # ---------------------------------------------------------------- breakdown detection of the one solver that has it
     from . import c12
     c12.check(run, M, tier)
+
+
+REF_NEWTON = """
+gradf_x = self.gradf(self.x)
+p = -self.inv_hessf(self.x)(gradf_x)
+self.lamda2 = -xp.real(xp.vdot(p, gradf_x)).item()
+if self.lamda2 < 0:
+    raise ValueError("not descending")
+x_new = self.x + p
+if self.beta < 1:
+    fx = self.f(self.x)
+    alpha = 1
+    while self.f(x_new) > fx - alpha / 2 * self.lamda2:
+        alpha *= self.beta
+        x_new = self.x + alpha * p
+backend.copyto(self.x, x_new)
+self.residual = self.lamda2**0.5
+"""
+
+
+def check_newton(run, M, rule):
+    """NewtonsMethod stops on residual = sqrt(lamda2) <= tol with lamda2 = -Re<p, grad f(x)> the Newton decrement: that is a fixed-point test only
+    if every negative decrement (a non-descent direction: the inverse Hessian is wrong) is reported as a breakdown -- a tolerance on the sign,
+    or clamping lamda2 at 0, turns such a step into "converged" after one update"""
+    from ..linopdesc import havoc_loop
+    f = M.func("sigpy.alg.NewtonsMethod._update")
+    _, code = vn_paths(M, f, real=REAL | {"self.lamda2", "self.beta"}, loop_hook=havoc_loop)
+    _, ref = vn_ref(REF_NEWTON.strip(), model=M, func=f, real=REAL | {"self.lamda2", "self.beta"}, loop_hook=havoc_loop)
+    compare_with_reference(run, rule, "NewtonsMethod._update", f, code, ref, ["self.x", "self.lamda2", "self.residual"], "damped Newton step with the decrement as stopping measure")
 
 
 def check_power_method(run, M, rule):
